@@ -110,6 +110,16 @@ func runNative(reg *Registry, files []string, pp *packages.Package) (map[string]
 	return out, nil
 }
 
+// nativeParallel: replay processes run side by side (they are timing sensitive: keep well below the core count).
+func nativeParallel() int {
+	if s := os.Getenv("VERIF_NATIVE_PARALLEL"); s != "" {
+		if n, err := strconv.Atoi(s); err == nil && n > 0 {
+			return n
+		}
+	}
+	return 4
+}
+
 var raceLineRe = regexp.MustCompile(`([A-Za-z0-9_]+\.go):(\d+)`)
 
 func runNativeMode(reg *Registry, files []string, pp *packages.Package, race bool) (map[string]replayOutcome, error) {
@@ -200,18 +210,55 @@ func runNativeMode(reg *Registry, files []string, pp *packages.Package, race boo
 	if err := os.WriteFile(ovPath, ov, 0o644); err != nil {
 		return nil, err
 	}
-	goArgs := []string{"test", "-vet=off", "-count=1", "-v", "-run", "^TestVerifReplay$", "-overlay", ovPath, "-timeout", "600s"}
-	if race {
-		goArgs = append(goArgs, "-race")
-	}
-	goArgs = append(goArgs, ".")
-	cmd := exec.Command("go", goArgs...)
-	cmd.Dir = repoDir
-	cmd.Env = append(os.Environ(), "GOFLAGS=-mod=mod", "GOPROXY=off", "VERIF_REPLAY_FILES="+strings.Join(files, ":"))
 	var buf bytes.Buffer
-	cmd.Stdout = &buf
-	cmd.Stderr = &buf
-	runErr := cmd.Run()
+	var runErr error
+	if race {
+		goArgs := []string{"test", "-vet=off", "-count=1", "-v", "-run", "^TestVerifReplay$", "-overlay", ovPath, "-timeout", "600s", "-race", "."}
+		cmd := exec.Command("go", goArgs...)
+		cmd.Dir = repoDir
+		cmd.Env = append(os.Environ(), "GOFLAGS=-mod=mod", "GOPROXY=off", "VERIF_REPLAY_FILES="+strings.Join(files, ":"))
+		cmd.Stdout = &buf
+		cmd.Stderr = &buf
+		runErr = cmd.Run()
+	} else {
+		// compile the test binary once, then one process per record (a few at a time): goroutines a
+		// replay leaves behind can then never disturb the next one, and a crash costs one record
+		bin := filepath.Join(tmp, "replay.test")
+		cmd := exec.Command("go", "test", "-c", "-vet=off", "-overlay", ovPath, "-o", bin, ".")
+		cmd.Dir = repoDir
+		cmd.Env = append(os.Environ(), "GOFLAGS=-mod=mod", "GOPROXY=off")
+		if outb, err := cmd.CombinedOutput(); err != nil {
+			tail := string(outb)
+			if len(tail) > 1500 {
+				tail = tail[len(tail)-1500:]
+			}
+			for _, f := range files {
+				out[f] = replayOutcome{Kind: "MISSING", Detail: fmt.Sprintf("native build failed (%v): %s", err, strings.ReplaceAll(tail, "\n", " | "))}
+			}
+			return out, nil
+		}
+		outs := make([][]byte, len(files))
+		sem := make(chan struct{}, nativeParallel())
+		var wg sync.WaitGroup
+		for i, f := range files {
+			wg.Add(1)
+			sem <- struct{}{}
+			go func(i int, f string) {
+				defer wg.Done()
+				defer func() { <-sem }()
+				c := exec.Command(bin, "-test.run", "^TestVerifReplay$", "-test.v", "-test.timeout", "120s")
+				c.Dir = repoDir
+				c.Env = append(os.Environ(), "VERIF_REPLAY_FILES="+f)
+				b, _ := c.CombinedOutput()
+				outs[i] = b
+			}(i, f)
+		}
+		wg.Wait()
+		for _, b := range outs {
+			buf.Write(b)
+			buf.WriteByte('\n')
+		}
+	}
 	if os.Getenv("GOSMT_NATIVE_LOG") != "" {
 		os.WriteFile(os.Getenv("GOSMT_NATIVE_LOG"), buf.Bytes(), 0o644)
 	}
@@ -732,6 +779,12 @@ func runHarnessSeeded(ld *Loaded, name string, spec *HarnessSpec, tier string, s
 func concordanceN(spec *HarnessSpec, tier string) int {
 	if spec.NoConcordance {
 		return 0
+	}
+	if s := os.Getenv("VERIF_CONC_N"); s != "" {
+		// development: stress the native replay with many sampled paths
+		if n, err := strconv.Atoi(s); err == nil {
+			return n
+		}
 	}
 	if tier == "thorough" {
 		return 12
